@@ -11,6 +11,7 @@ EXTENDS Integers, Sequences, FiniteSets, TLC, Json
 
 Trace == ndJsonDeserialize("trace.ndjson")
 Ids == {e \o ":" \o k : e \in {"eA", "eB"}, k \in {"pt", "pt2", "ept", "tomb"}}
+       \cup {e \o ":" \o k : e \in {"eC", "eD"}, k \in {"pt", "tomb"}}
 VARIABLES l, newest, link
 tvars == <<l, newest, link>>
 TraceInit == l = 1 /\ newest = [i \in Ids |-> 0] /\ link = "up"
